@@ -212,6 +212,28 @@ func initMaterial() {
 	pemMat["keyBad"] = corrupt(keyA)
 	pemMat["caBad"] = corrupt(ca)
 	pemMat["trunc"] = certA[:len(certA)/2]
+	// MIXED bundles: a lenient loader (CertPool.AppendCertsFromPEM) and a strict one (cert.ParseCertsPEM,
+	// tls.X509KeyPair) disagree on some of these
+	cat := func(parts ...[]byte) []byte {
+		out := []byte{}
+		for _, p := range parts {
+			out = append(out, p...)
+		}
+		return out
+	}
+	pemMat["caGoodBad"] = cat(ca, pemMat["caBad"])                  // good CA + CERTIFICATE block of unparsable DER
+	pemMat["caBadGood"] = cat(pemMat["caBad"], ca)                  // the other order
+	pemMat["caGoodKey"] = cat(ca, caKey)                            // good CA + a block that is not a certificate
+	pemMat["caGoodGarbage"] = cat(ca, []byte("trailing garbage\n")) // good CA + trailing non-PEM bytes
+	pemMat["caGarbageGood"] = cat([]byte("leading garbage\n"), ca)
+	pemMat["caGoodTrunc"] = cat(ca, certA[:len(certA)/2])  // good CA + a block cut in the middle
+	pemMat["certAChain"] = cat(certA, ca)                  // leaf + issuer: two good certificates
+	pemMat["certAGoodBad"] = cat(certA, pemMat["certBad"]) // good leaf + damaged block
+	pemMat["certBadGood"] = cat(pemMat["certBad"], certA)  // damaged block first
+	pemMat["certAGarbage"] = cat(certA, []byte("trailing garbage\n"))
+	pemMat["certKeyA"] = cat(keyA, certA) // key and certificate in one bundle
+	pemMat["keyAGarbage"] = cat(keyA, []byte("trailing garbage\n"))
+	pemMat["keyBadGood"] = cat(pemMat["keyBad"], keyA)
 	pemMat["empty"] = []byte{}
 }
 
